@@ -1,5 +1,6 @@
 ---- MODULE MC_q_nx ----
 EXTENDS MCOFWire
 TheCases == NXDeviations(TopKindsNX) \cup NXShapes({0, 1, 2, 3, 4, 5})
+TheRCases == {}
 TheAround == AroundOne
 ====
